@@ -1,6 +1,5 @@
 package main
 
-
 func busGuards(R *BusRoles) []guardSpec {
 	M := discoverMem(R.P)
 	g := []guardSpec{
